@@ -78,6 +78,7 @@ def wl_history(ctx, rng, case):
     true = Counter({k: 0 for k in keys})
     removes = reloads = 0
     for step in range(rng.randint(4, 45)):
+        bl.noise_reads(ctx, rng, s, keys)
         r = rng.random()
         total = sum(true.values())
         live = [k for k in keys if true[k] > 0]
